@@ -83,6 +83,8 @@ UNIT = dict(
     frame=[
         dict(name="state_atomic_written_only_in_transition_to", tags=["C03", "C04"],
              pattern=r"state_atomic\s*\.\s*(store|swap|fetch_\w+|compare_exchange\w*)",
-             glob=CB + "**/*.rs", only_in=["circuit:Circuit::transition_to"]),
+             glob=CB + "**/*.rs", only_in=["circuit:Circuit::transition_to"],
+             # a write of the lock-free mirror anywhere else is not tied to a state change made under the circuit lock: the views can disagree
+             violation=True),
     ],
 )
